@@ -78,7 +78,7 @@ func Sign(r io.Reader, signer *openpgp.Entity, opts crypto.SignerOpts, role stri
 			continue
 		}
 		save := io.Writer(ioutil.Discard)
-		var closer io.Closer
+		var closer *io.PipeWriter
 		var infoch chan *PackageInfo
 		var errch chan error
 		if strings.HasPrefix(name, "control.tar") {
@@ -100,6 +100,10 @@ func Sign(r io.Reader, signer *openpgp.Entity, opts crypto.SignerOpts, role stri
 		md5 := crypto.MD5.New()
 		sha1 := crypto.SHA1.New()
 		if _, err := io.Copy(io.MultiWriter(md5, sha1, save), reader); err != nil {
+			if closer != nil {
+				// release the goroutine parsing the control tarball
+				_ = closer.CloseWithError(err)
+			}
 			return nil, err
 		}
 		if closer != nil {
